@@ -20,23 +20,61 @@ structure St where
   /-- model side -/
   m : Model.Entropy.St := Model.Entropy.St.init
   mOracle : Oracle := []
+  /-- a `bigread … cmp` of a length the model does not compute has been answered: the generator state after it is
+      not known here, every later line of the case is answered `after-big` -/
+  dead : Bool := false
 
 inductive Op where
   | ent (ans : Option (List UInt8))
+  /-- several answers at once (`entgen`) -/
+  | ents (ans : List (Option (List UInt8)))
   | read (n : Nat)
+  /-- `bigread n … full|cmp`: ONE call for `n` bytes compared by the harness with the same request made in calls of
+      `GENERATE_MAXLEN` bytes.  `full`: the model makes the call; `cmp`: it makes the first of the chunked calls only -/
+  | bigread (n : Nat) (full : Bool)
 
 inductive Out where
   | ent (queued : Nat)                                                   -- `ent | <answers queued>`
   | read (spec model : Outcome) (m : Model.Entropy.St) (queued : Nat)    -- `<spec> | <model> K= V= ctr= inst= q=`
+  | bigfull (n : Nat) (spec model : Outcome) (m : Model.Entropy.St) (queued : Nat)   -- `same <n> ` + the `read` line
+  | bigcmp (n : Nat) (specFirst modelFirst : Outcome)                    -- `same <n> first=… | first=…`
+  | dead                                                                 -- `after-big`
 
-def stepOp (s : St) : Op → St × Out
+/-- answer number `i` of a generated script (`entgen <count> <len> <seed>`): `len` bytes of a 32-bit linear
+    congruential sequence started from `seed` and `i` (the harness computes the same bytes) -/
+def genBytes (seed i len : Nat) : List UInt8 :=
+  ((List.range len).foldl (fun (acc : UInt32 × List UInt8) _ =>
+      let s := acc.1 * 1103515245 + 12345
+      (s, (s >>> 16).toUInt8 :: acc.2)) (UInt32.ofNat seed * 2654435761 + UInt32.ofNat i, [])).2.reverse
+
+def genAnswers (count len seed : Nat) : List (Option (List UInt8)) :=
+  (List.range count).map fun i => some (genBytes seed i len)
+
+/-- the length of the first call of the chunked sequence -/
+def firstPiece (n : Nat) : Nat :=
+  if n > Model.Entropy.Cfg.source.generateMaxlen then Model.Entropy.Cfg.source.generateMaxlen else n
+
+def stepOp (s : St) (op : Op) : St × Out :=
+  if s.dead then (s, .dead) else
+  match op with
   | .ent x =>
     let s := { s with refOracle := s.refOracle ++ [x], mOracle := s.mOracle ++ [x] }
+    (s, .ent s.mOracle.length)
+  | .ents xs =>
+    let s := { s with refOracle := s.refOracle ++ xs, mOracle := s.mOracle ++ xs }
     (s, .ent s.mOracle.length)
   | .read n =>
     let (r1, ref', ro') := Service.read std s.ref s.refOracle n
     let (r2, m', mo') := Model.Entropy.read Model.Entropy.Cfg.source s.m s.mOracle n
     ({ ref := ref', refOracle := ro', m := m', mOracle := mo' }, .read r1 r2 m' mo'.length)
+  | .bigread n true =>
+    let (r1, ref', ro') := Service.read std s.ref s.refOracle n
+    let (r2, m', mo') := Model.Entropy.read Model.Entropy.Cfg.source s.m s.mOracle n
+    ({ ref := ref', refOracle := ro', m := m', mOracle := mo' }, .bigfull n r1 r2 m' mo'.length)
+  | .bigread n false =>
+    let (r1, ref', ro') := Service.read std s.ref s.refOracle (firstPiece n)
+    let (r2, m', mo') := Model.Entropy.read Model.Entropy.Cfg.source s.m s.mOracle (firstPiece n)
+    ({ ref := ref', refOracle := ro', m := m', mOracle := mo', dead := true }, .bigcmp n r1 r2)
 
 def runOps (s : St) : List Op → St × List Out
   | [] => (s, [])
